@@ -395,7 +395,15 @@ func logsTable() *tableDef {
 			return pgErr("22P02", "invalid input value for enum log_type: "+typ, "")
 		}
 		lr := x.ledgerRow(strOf(d.val(vals, "ledger")))
-		if lr == nil || lr.Features["HASH_LOGS"] != "SYNC" {
+		if lr == nil {
+			return nil
+		}
+		hashOn := lr.Features["HASH_LOGS"] == "SYNC"
+		if x.ddlTriggers() {
+			// what bucket.AddLedger installed decides, not the feature value
+			hashOn = x.firesProc(lr.Bucket, "logs", "before", "insert", lr.Name, "set_log_hash")
+		}
+		if !hashOn {
 			return nil
 		}
 		// trigger set_log_hash (installed per ledger when HASH_LOGS=SYNC): chain on the log with the highest
@@ -646,9 +654,15 @@ func movesTable() *tableDef {
 			Amount: new(big.Int).Set(d.val(vals, "amount").(*big.Int)), InsertionDate: timeOf(d.val(vals, "insertion_date")),
 			EffectiveDate: timeOf(d.val(vals, "effective_date")), PCV: volOf(d.val(vals, "post_commit_volumes")), PCEV: volOf(d.val(vals, "post_commit_effective_volumes"))}, nil
 	}
-	effective := func(x *sqlExec, vals []Val) bool {
+	effectiveWhen := func(x *sqlExec, vals []Val, timing, proc string) bool {
 		lr := x.ledgerRow(strOf(vals[1]))
-		return lr != nil && lr.Features["MOVES_HISTORY_POST_COMMIT_EFFECTIVE_VOLUMES"] == "SYNC"
+		if lr == nil {
+			return false
+		}
+		if x.ddlTriggers() {
+			return x.firesProc(lr.Bucket, "moves", timing, "insert", lr.Name, proc)
+		}
+		return lr.Features["MOVES_HISTORY_POST_COMMIT_EFFECTIVE_VOLUMES"] == "SYNC"
 	}
 	delta := func(d *tableDef, vals []Val) (in, out *big.Int) {
 		amt := d.val(vals, "amount").(*big.Int)
@@ -660,7 +674,7 @@ func movesTable() *tableDef {
 	// trigger set_effective_volumes (before insert): previous move of the same account/asset by
 	// (effective_date, seq), plus this move
 	d.beforeInsert = func(x *sqlExec, d *tableDef, vals []Val) error {
-		if !effective(x, vals) {
+		if !effectiveWhen(x, vals, "before", "set_effective_volumes") {
 			return nil
 		}
 		lr := x.ledgerRow(strOf(vals[1]))
@@ -692,7 +706,7 @@ func movesTable() *tableDef {
 	}
 	// trigger update_effective_volumes (after insert): shift the moves that are later in effective time
 	d.afterInsert = func(x *sqlExec, d *tableDef, vals []Val) error {
-		if !effective(x, vals) {
+		if !effectiveWhen(x, vals, "after", "update_effective_volumes") {
 			return nil
 		}
 		lr := x.ledgerRow(strOf(vals[1]))
